@@ -202,3 +202,16 @@ def inline_calls(ix, fl, rf, module_relpath, names, depth=3):
             val = inline_calls(ix, fl, val, tgt.module.relpath, names, depth - 1)
         return val
     return fl.tab.rewrite(rf, f)
+
+
+def dict_items(fl, rf):
+    """{key text: value RF} of a dict-literal atom (keys are constants)."""
+    at = atom_of(fl, rf)
+    if at is None or at.head != 'dict':
+        return None
+    out = {}
+    for k, v in zip(at.args[0::2], at.args[1::2]):
+        ka = atom_of(fl, k)
+        key = ka.args[0].strip("'\"") if ka is not None and ka.head == 'const' else fmt(fl, k)
+        out[key] = v
+    return out
